@@ -235,6 +235,12 @@ class AstToDjangoQVisitor(visitor.NodeVisitor):
         ):
             node = ast.Compare(node.comparator, node.right, node.left)
 
+        # A list is only an operand on the right of `in`:
+        if isinstance(node.left, ast.List) or (
+            isinstance(node.right, ast.List) and not isinstance(node.comparator, ast.In)
+        ):
+            raise ex.TypeException(node.comparator.__class__.__name__, "List")
+
         lhs = self.visit(node.left)
 
         # A `Q` object (the result of and/or/not) is a filter, not a value
